@@ -185,7 +185,11 @@ class _FileInitWith(Generic[_WT]):
         else:
             async with cls.write_lock(path):
                 self._obj = obj = cls.file_open(path)
-                obj.file_write()
+                if not cls.file_exists(path):
+                    # still missing now that the lock is held; if another
+                    # session created it meanwhile it may already have
+                    # content that must not be overwritten
+                    obj.file_write()
         return obj
 
     async def __aexit__(self, exc_type: Any, exc_val: Any,
